@@ -1,7 +1,9 @@
 //! Reference models. They never call Kolibrie code.
+pub mod datalog;
 
 /// Self-tests of the reference models against hand-computed micro cases.
 pub fn selftest() -> Vec<String> {
-    let errs = Vec::new();
+    let mut errs = Vec::new();
+    errs.extend(datalog::selftest());
     errs
 }
